@@ -60,6 +60,12 @@ def build_obj(h, lst, variant, path, hdr=(), salt=0, nov=False):
                 cur = e["g"]
             if nov and (not lines or lines[-1].startswith(b"[")):
                 lines.append(bytes(e["k"]))          # a key without delimiter: stored WITHOUT a value (first line / first of its section)
+            elif not e["v"] and (len(lines) + salt) % 2:
+                # an entry without value as a key alone on its line (below another entry only after a blank line: directly
+                # below it would continue that entry's value)
+                if lines and not lines[-1].startswith(b"["):
+                    lines.append(b"")
+                lines.append(bytes(e["k"]))
             else:
                 lines.append(bytes(e["k"]) + b"=" + bytes(e["v"]))
         for n, g in enumerate(sorted(hdr)):
@@ -239,7 +245,7 @@ def random_list(r, n):
         if (cur, k) in seen:
             continue
         seen.add((cur, k))
-        out.append({"g": codes(cur), "k": codes(k), "v": codes("v%d" % r.randint(0, 99))})
+        out.append({"g": codes(cur), "k": codes(k), "v": codes("v%d" % r.randint(0, 99)) if r.random() < 0.88 else []})
     return out
 
 
@@ -250,21 +256,26 @@ def check(pid, tier, seed):
     maxlen = 3 if tier == "quick" else 4
     # model check one bound deeper than what is replayed
     mc = core.tlc_ok("MC_Merge", write_cfg(cfg_text(["MergeIsRef", "WithinBounds", "Complete"],
-                                                    {"MaxLen": maxlen + 1, "Export": "FALSE", "Hdr": "FALSE"})), timeout=3000)
+                                                    {"MaxLen": maxlen + 1, "Export": "FALSE", "Hdr": "FALSE", "NoV": "FALSE"})), timeout=3000)
     if mc.violated:
         verdict.violation("C03:model", {"tlc": mc.out[-3000:]}, "TLC: MergeImpl violates MergeRef / bounds\n" + mc.out[-1500:])
-    r, recs, total = export("MC_Merge", {"MaxLen": maxlen, "Export": "TRUE", "Hdr": "FALSE"}, ["MergeIsRef", "WithinBounds"], seed=seed)
+    r, recs, total = export("MC_Merge", {"MaxLen": maxlen, "Export": "TRUE", "Hdr": "FALSE", "NoV": "FALSE"}, ["MergeIsRef", "WithinBounds"], seed=seed)
     pairs = [(x["b"], x["o"]) for x in recs]
     expect = [x["exp"] for x in recs]
     run_pairs(exe, pairs, verdict, expect)
     nn = sum(1 for b, o in pairs if nontrivial(b, o))
     # header-only sections on either side (parsed files only)
-    r2, recs2, total2 = export("MC_Merge", {"MaxLen": maxlen - 1, "Export": "TRUE", "Hdr": "TRUE"}, ["MergeIsRef", "WithinBounds"], seed=seed)
+    r2, recs2, total2 = export("MC_Merge", {"MaxLen": maxlen - 1, "Export": "TRUE", "Hdr": "TRUE", "NoV": "FALSE"}, ["MergeIsRef", "WithinBounds"], seed=seed)
     plain2 = [(x["b"], x["o"]) for x in recs2 if not x["bh"] and not x["oh"]]
     recs2 = [x for x in recs2 if (x["bh"] or x["oh"]) and parseable(x["b"]) and parseable(x["o"])]
     hpairs = [(x["b"], x["o"], [tuple(g) for g in x["bh"]], [tuple(g) for g in x["oh"]]) for x in recs2]
     run_pairs(exe, hpairs, verdict, [x["exp"] for x in recs2])
     nin = inputs_unchanged(exe, plain2, verdict, "C03")
+    # entries without value on either side (a key alone on its line, `k=`, a setter with an empty text): the override's entry
+    # replaces the base's value like any other
+    r3, recs3, total3 = export("MC_Merge", {"MaxLen": maxlen - 1, "Export": "TRUE", "Hdr": "FALSE", "NoV": "TRUE"}, ["MergeIsRef", "WithinBounds", "Complete"], seed=seed)
+    recs3 = [x for x in recs3 if any(not e["v"] for e in x["b"] + x["o"])]
+    run_pairs(exe, [(x["b"], x["o"]) for x in recs3], verdict, [x["exp"] for x in recs3], i0=1)
     # random larger pairs, validated by TLC
     rnd = random.Random(seed)
     npairs = 400 if tier == "quick" else 6000
@@ -294,8 +305,8 @@ def check(pid, tier, seed):
     samples = [{"base": show(b), "override": show(o), "expected": showobs(e)} for (b, o), e in list(zip(pairs, expect))[1000:1003]]
     cov = {"states": mc.distinct, "transitions": mc.generated, "traces_validated_against_impl": len(pairs) + acc,
            "evaluations": len(pairs) + len(rp), "distinct_nontrivial": nn,
-           "rule": "TLC: all pairs of duplicate-free entry lists of length <= %d over {group-less,A,B} x {x,y} (model-checked: %d pairs; exported and replayed through setters on newKeyFile/newIniFile/newKeyFile_with_options objects and parsed files: all %d pairs of length <= %d; %d pairs of length <= %d in which either side is a parsed file with header-only sections from {A,B} at varying positions; %d pairs of parsed files with value-less first keys: full extended dump of both inputs unchanged by the call) + %d random pairs of 0..30 entries (a quarter of them 20..120 entries per side) validated by Trace_Merge + %d mixed histories with merges of parsed and built objects validated against the root specification (Trace_Econf). non-trivial = shared key, an empty side, or a re-opened section." % (
-               maxlen + 1, mc.distinct, len(pairs), maxlen, len(hpairs), maxlen - 1, nin, len(rp), nmix),
+           "rule": "TLC: all pairs of duplicate-free entry lists of length <= %d over {group-less,A,B} x {x,y} (model-checked: %d pairs; exported and replayed through setters on newKeyFile/newIniFile/newKeyFile_with_options objects and parsed files: all %d pairs of length <= %d; %d pairs of length <= %d in which either side is a parsed file with header-only sections from {A,B} at varying positions; %d pairs of parsed files with value-less first keys: full extended dump of both inputs unchanged by the call; %d pairs of length <= %d in which entries of either side have no value - bare key, `k=`, empty text set) + %d random pairs of 0..30 entries (a quarter of them 20..120 entries per side) validated by Trace_Merge + %d mixed histories with merges of parsed and built objects validated against the root specification (Trace_Econf). non-trivial = shared key, an empty side, or a re-opened section." % (
+               maxlen + 1, mc.distinct, len(pairs), maxlen, len(hpairs), maxlen - 1, nin, len(recs3), maxlen - 1, len(rp), nmix),
            "samples": samples, "exhaustive": True,
            "trusted_base": ["TLC 1.8.0", "gcc ASan/UBSan", "drv.c"]}
     core.write_evidence(pid, tier, seed, "model_checking", cov,
